@@ -1,6 +1,6 @@
 (* The Q instance of the model, as the functions the runner calls. *)
 From Coq Require Import List ZArith QArith Bool.
-From SplipyModel Require Import Model.Num Model.BasisDef Model.BasisEval Model.Knots Model.Tensor Model.Obj Model.Deriv Model.KnotInsert Model.Reparam Model.Affine Model.Tol Model.StateCtx Model.Solve Model.Order Model.Split Model.Periodic Model.WF Model.Ops.
+From SplipyModel Require Import Model.Num Model.BasisDef Model.BasisEval Model.Knots Model.Tensor Model.Obj Model.Deriv Model.KnotInsert Model.Reparam Model.Affine Model.Tol Model.StateCtx Model.Solve Model.Order Model.Split Model.Periodic Model.WF Model.Ops Model.Identical.
 Import ListNotations.
 
 Definition q_basis_evaluate := @basis_evaluate Q NumQ.
@@ -47,4 +47,6 @@ Definition q_obj_make_periodic := @obj_make_periodic Q NumQ.
 Definition q_obj_lower_periodic (o : obj Q) (t d : nat) := @obj_lower_periodic Q NumQ 64 o t d.
 Definition q_wf_obj_b := @wf_obj_b Q NumQ.
 Definition q_basis_ctor := @basis_ctor Q NumQ.
+Definition q_obj_make_identical := @obj_make_identical Q NumQ.
+Definition q_obj_compatible := @obj_compatible Q NumQ.
 Definition q_res_witness (e : err) : res unit := Err e.
